@@ -1,5 +1,6 @@
 //! Runtime-monitoring harness for Nashtare/winterfell (see /verif/DESIGN.md).
 pub mod fields;
+pub mod gen;
 pub mod json;
 pub mod prng;
 pub mod refmath;
